@@ -221,6 +221,38 @@ pub fn hnf_gauss_shapes(s: &mut Src) -> R {
     Ok(())
 }
 
+/// C09 over Z[i] and Z[omega] with arbitrary precision (BOUNDED, sampled): snf on m x n matrices, m, n in 0..=3, components |x| <= 4:
+/// D = P A Q, two-sided inverses, D diagonal, normalised, non-zero entries first, each dividing the next.
+pub fn snf_quad_shapes(s: &mut Src) -> R {
+    use yui_matrix::MatTrait;
+    use yui::{GaussInt, EisenInt, Ring, EucRing};
+    use num_bigint::BigInt;
+    use num_traits::Zero;
+    let (m, n) = (s.small(0, 3) as usize, s.small(0, 3) as usize);
+    let mut e: Vec<(i64, i64)> = vec![];
+    for _ in 0..9 { let (a, b) = (s.small(-6, 6), s.small(-6, 6)); e.push((if a.abs() > 4 { 0 } else { a }, if b.abs() > 4 { 0 } else { b })); }
+    let eisen = s.bool();
+    reach!();
+    macro_rules! go { ($T:ty) => {{
+        let g = |(a, b): (i64, i64)| <$T>::new(BigInt::from(a), BigInt::from(b));
+        let a = Mat::from_data((m, n), (0..m).flat_map(|i| (0..n).map(move |j| (i, j))).map(|(i, j)| g(e[i * 3 + j])).collect::<Vec<_>>());
+        let r = snf(&a, [true; 4]);
+        let d = r.result().clone();
+        let (p, pinv, q, qinv) = (r.p().unwrap(), r.pinv().unwrap(), r.q().unwrap(), r.qinv().unwrap());
+        ob!(d.shape() == (m, n), "snf<quad>::shape");
+        ob!(&(p * &a) * q == d, "snf<quad>::D==P.A.Q");
+        ob!(p * pinv == Mat::id(m) && pinv * p == Mat::id(m) && q * qinv == Mat::id(n) && qinv * q == Mat::id(n), "snf<quad>::two-sided-inverses");
+        ob!(d.is_diag(), "snf<quad>::D-is-diagonal");
+        let k = m.min(n);
+        let v: Vec<$T> = (0..k).map(|i| d[(i, i)].clone()).collect();
+        ob!(v.iter().all(|x| x.normalized() == *x), "snf<quad>::diagonal-normalised");
+        ob!((1..k).all(|i| !(v[i - 1].is_zero() && !v[i].is_zero())), "snf<quad>::non-zero-entries-first");
+        ob!((1..k).all(|i| v[i].is_zero() || v[i - 1].divides(&v[i])), "snf<quad>::each-entry-divides-the-next");
+    }} }
+    if eisen { go!(EisenInt<BigInt>) } else { go!(GaussInt<BigInt>) }
+    Ok(())
+}
+
 /// the same over Z[i] (units other than +-1 exercise the inverse bookkeeping): 2x2, small entries
 pub fn snf_gauss_small(s: &mut Src) -> R {
     use yui::GaussInt;
@@ -579,4 +611,4 @@ pub fn snf_mat_ops(s: &mut Src) -> R {
     }
     Ok(())
 }
-crate::harness_table!(SNF: snf_small [unwind 4], snf_gauss_small [unwind 4], trans_small [unwind 4], lll_small [unwind 4], snf_mat_ops [unwind 4], lll_rows45 [unwind 4], spmat_ops_small [unwind 4], spvec_mat_ops_small [unwind 4], snf_shapes [unwind 4], hnf_shapes [unwind 4], snf_poly_ff5 [unwind 4], lll_shapes [unwind 4], hnf_gauss_shapes [unwind 4]);
+crate::harness_table!(SNF: snf_small [unwind 4], snf_gauss_small [unwind 4], trans_small [unwind 4], lll_small [unwind 4], snf_mat_ops [unwind 4], lll_rows45 [unwind 4], spmat_ops_small [unwind 4], spvec_mat_ops_small [unwind 4], snf_shapes [unwind 4], hnf_shapes [unwind 4], snf_poly_ff5 [unwind 4], lll_shapes [unwind 4], hnf_gauss_shapes [unwind 4], snf_quad_shapes [unwind 4]);
